@@ -5,6 +5,7 @@
 import LdkModel.Model.Timing
 import LdkModel.Proofs.NodeStep
 import LdkModel.Proofs.NodeRun
+import LdkModel.Proofs.NodeSafe
 namespace Ldk.C08
 open Ldk Ldk.Timing Ldk.NodeStep
 
@@ -262,8 +263,9 @@ theorem preimage_in_time_claims_upstream (s : St) (p delta : Nat) (hd : MIN_CLTV
 /-- Restart: re-announcing the current best height changes nothing and emits nothing (the monitor ignores it, the
     manager's scan is idempotent). -/
 theorem reannounce_is_noop (s : St) (h : Nat) (x : BbuExit) (c t : Bool) (hb : s.monBest = h)
-    (hc : (s.inCell && holdingCellTimedOut h s.outCltv) = false) : nodeStep s (.block h x c t) = (s, []) :=
-  reannounce_noop s h x c t hb hc
+    (hc : (s.inCell && holdingCellTimedOut h s.outCltv) = false)
+    (hi : (s.intercepted && interceptTimedOut h s.outCltv) = false) : nodeStep s (.block h x c t) = (s, []) :=
+  reannounce_noop s h x c t hb hc hi
 
 /-- WHOLE HISTORIES (induction over `run`, any start state, any list of blocks / jumps / re-announced heights / preimage
     arrivals / holding-cell releases, any exits): the upstream HTLC is resolved off chain AT MOST ONCE — never failed
@@ -303,6 +305,80 @@ theorem never_onchain_downstream_before_grace (s : St) (es : List Ev) (h : Nat)
   exact (outbound_trigger_iff h s.outCltv p).1 hp
 example : (150, Act.broadcastDown) ∈ (run { inCltv := 188, outCltv := 140, monBest := 100, inCell := false, outLive := true }
     [.block 142 .plain false false, .block 150 .plain false false]).2 := by decide
+
+/-- WHOLE HISTORIES — the property itself. In EVERY history in which blocks are delivered one height at a time (any exits,
+    any confirmations, holding-cell releases, releases of a held intercepted forward, and a downstream preimage that comes off
+    chain, i.e. before the node's own downstream trigger), starting from any state that is itself in time, after every
+    event the node has acted before the height at which money could be lost:
+    * downstream: an outbound HTLC that is live and whose commitment is not on the wire ⇒ best height < `outCltv + LATENCY_GRACE_PERIOD_BLOCKS`
+      (by `outCltv + 3` the node HAS gone on chain downstream);
+    * a forward still in the holding cell ⇒ best height + `LATENCY_GRACE_PERIOD_BLOCKS` < `outCltv` (else it HAS been failed back);
+    * a forward still held as intercepted ⇒ best height + `HTLC_FAIL_BACK_BUFFER` (39) < `outCltv` (else it HAS been failed back);
+    * upstream: preimage known, upstream HTLC neither claimed off chain nor taken on chain ⇒ best height + `CLTV_CLAIM_BUFFER` (36)
+      < `inCltv`: both confirmation windows (2·MAX_BLOCKS_FOR_CONF) are still ahead, the payer's timeout cannot win;
+    and the admitted delta `inCltv ≥ outCltv + MIN_CLTV_EXPIRY_DELTA` (48) is never lost. (`Safe`/`OneAtATime`: Proofs/NodeSafe.lean) -/
+theorem acted_before_money_could_be_lost (s : St) (es : List Ev) (hs : Safe s) (ho : OneAtATime s es) :
+    ((run s es).1.outLive = true → (run s es).1.downBroadcast = none →
+        (run s es).1.monBest < (run s es).1.outCltv + LATENCY_GRACE_PERIOD_BLOCKS) ∧
+    ((run s es).1.inCell = true → (run s es).1.monBest + LATENCY_GRACE_PERIOD_BLOCKS < (run s es).1.outCltv) ∧
+    ((run s es).1.intercepted = true → (run s es).1.monBest + HTLC_FAIL_BACK_BUFFER < (run s es).1.outCltv) ∧
+    ((run s es).1.preimage = true → (run s es).1.up = .pending → (run s es).1.upBroadcast = none →
+        (run s es).1.monBest + CLTV_CLAIM_BUFFER < (run s es).1.inCltv) ∧
+    (run s es).1.outCltv + MIN_CLTV_EXPIRY_DELTA ≤ (run s es).1.inCltv := by
+  obtain ⟨⟨c1, c2, c3, c4⟩, wf⟩ := run_safe es s hs ho
+  generalize (run s es).1 = q at *
+  refine ⟨fun a b => ?_, fun a => ?_, fun a => ?_, fun a b d => ?_, wf⟩
+  · have h1 := c1 a b
+    cases hp : q.preimage <;> rw [hp] at h1 <;> timing_omega
+  · have h1 := c2 a
+    timing_omega
+  · have h1 := c4 a
+    simp only [interceptTimedOut] at h1
+    timing_omega
+  · have h1 := c3 a b d
+    timing_omega
+example : Safe { inCltv := 188, outCltv := 140, monBest := 100, inCell := false, outLive := true } := by
+  unfold Safe SafeAt C1 C2 C3 C4 Wf; decide
+example : OneAtATime { inCltv := 188, outCltv := 140, monBest := 100, inCell := false, outLive := true }
+    [.block 101 .plain false false, .preimage, .block 102 .plain false false] := by
+  unfold OneAtATime; refine ⟨rfl, ?_⟩; unfold OneAtATime; refine ⟨by decide, ?_⟩; unfold OneAtATime; exact ⟨by decide, trivial⟩
+
+/-- (round 5b) The trampoline-forward timeout arm of `do_chain_event`: a trampoline forward still waiting for parts is given up
+    exactly when SOME part is within `HTLC_FAIL_BACK_BUFFER` of its expiry (the earliest part decides: all parts are failed
+    together, pinned by the translator), so while it is held EVERY part has more than the fail-back buffer left. -/
+theorem trampoline_timeout_iff (h : Nat) (cltvs : List Nat) :
+    trampolineTimedOut h cltvs = true ↔ ∃ c ∈ cltvs, c ≤ h + HTLC_FAIL_BACK_BUFFER := by
+  unfold trampolineTimedOut
+  rw [List.any_eq_true]
+  constructor
+  · rintro ⟨c, hc, ht⟩; exact ⟨c, hc, by timing_omega⟩
+  · rintro ⟨c, hc, ht⟩; exact ⟨c, hc, by timing_omega⟩
+theorem trampoline_held_all_parts_safe (h : Nat) (cltvs : List Nat) (hh : trampolineTimedOut h cltvs = false) :
+    ∀ c ∈ cltvs, h + HTLC_FAIL_BACK_BUFFER < c ∧ mppOnchainTimeout h c = false := by
+  intro c hc
+  have : ¬ (c ≤ h + HTLC_FAIL_BACK_BUFFER) := fun hle => by
+    have := (trampoline_timeout_iff h cltvs).2 ⟨c, hc, hle⟩; rw [hh] at this; cases this
+  constructor <;> timing_omega
+theorem trampoline_timeout_reason : trampolineTimeoutReason = .cLTVExpiryTooSoon := by decide
+example : trampolineTimedOut 100 [200, 139, 180] = true ∧ trampolineTimedOut 100 [200, 140, 180] = false := by decide
+
+/-- (round 5b) No forwarded HTLC is outside every sweep: wherever a forward with a downstream counterpart sits — held as
+    intercepted, awaiting trampoline parts, in the outbound holding cell, or in ANY of the three commitments of the outbound
+    channel — a timeout sweep translated from the current source visits that place (manager: `chainEventSweeps`; monitor: both
+    the on-chain trigger's `scanList` and the pre-emptive fail-back loop's `preemptiveSweepList`). -/
+theorem no_forwarded_htlc_outside_every_sweep (l : FwdLoc) : sweptBy l = true := by
+  cases l with
+  | commitment s => cases s <;> decide
+  | _ => decide
+example : FwdLoc.all.all sweptBy = true := by decide
+/-- the pre-emptive loop visits exactly the sets the on-chain trigger scans -/
+theorem preemptive_sweep_matches_trigger_scan (s : ScanSet) : s ∈ preemptiveSweepList ↔ ∃ f, (s, f) ∈ scanList := by
+  cases s <;> decide
+/-- the loop skips an entry ONLY for one of these five reasons (pin of the translated `continue`s; no break / return):
+    not a forward (no source), no inbound expiry, not yet due (`earlyFailBack` false), the same failure already pending,
+    already failed back -/
+theorem preemptive_loop_skips :
+    preemptiveSkips = [.noSource, .noInboundExpiry, .notYetDue, .eventAlreadyPending, .alreadyFailedBack] := by decide
 
 /-! ### Round 5: intercepted HTLCs held by the node; which commitments the on-chain trigger scans -/
 
